@@ -258,6 +258,20 @@ class NPProxy(types.ModuleType):
 
     around = round
 
+    def ceil(self, x):
+        if isinstance(x, SymNorm):
+            x = x.materialize()
+        if isinstance(x, SymReal):
+            return core.sym_ceil(x)
+        return real_np.ceil(x)
+
+    def floor(self, x):
+        if isinstance(x, SymNorm):
+            x = x.materialize()
+        if isinstance(x, SymReal):
+            return core.sym_floor(x)
+        return real_np.floor(x)
+
     def log2(self, x):
         if isinstance(x, SymNorm):
             x = x.materialize()
